@@ -17,6 +17,7 @@ import Bita.Proofs.ReaderEnv
 import Bita.Proofs.Alloc
 import Bita.Proofs.HttpBounds
 import Bita.Proofs.ScanMemory
+import Bita.Proofs.Sink
 
 namespace Bita.Props.C15
 open Bita Bita.Spec
@@ -294,5 +295,30 @@ theorem chunker_wants_data_only_below_max (c : Chunker) (rest : Bytes) (n : Nat)
 example : SC.caps ⟨0, List.replicate 20 0, 0, Chunker.ofConfig (.fixed 5)⟩ Gen.refillSize
     [.bytes 9, .bytes 9, .bytes 9, .bytes 9] = [(1048576, 9), (2097152, 13), (2097152, 5)] := by
   decide +kernel
+
+/-- **Decompression memory (F11) as a theorem about the sink.**  Every decompressor writes into
+`LimitedOutput` (model `Sink`, tied through the hook `bitar::verif_limited_output` by `l1 fmt`): whatever
+sequence of writes it makes - the codecs are not modelled, so: *any* - the buffer never holds more than
+the size declared for the chunk; the run ends in exactly the bytes written if they fit, and in an error
+at the first write that would not.  The whole-output model the clone theorems use (`limitedDecomp`)
+is that sink run on any way of cutting the codec's output into writes. -/
+theorem decompression_buffer_never_exceeds_declared_size (declared : Nat) (writes : List Bytes) :
+    ∀ n ∈ Sink.states declared writes, n ≤ declared :=
+  Proofs.sink_states_le declared writes
+
+theorem decompression_exact_or_error (declared : Nat) (writes : List Bytes) (out : Bytes) :
+    Sink.run declared writes = .ok out ↔ (writes.flatten.length ≤ declared ∧ out = writes.flatten) :=
+  Proofs.sink_run_ok_iff declared writes out
+
+theorem limited_decomp_is_the_sink (raw : Nat → Bytes → Option Bytes) (algo : Nat) (stored : Bytes) (declared : Nat)
+    (out : Bytes) (hraw : raw algo stored = some out) (writes : List Bytes) (hp : writes.flatten = out) :
+    limitedDecomp raw algo stored declared = (match Sink.run declared writes with
+      | .ok b => some b
+      | .error _ => none) :=
+  Proofs.limitedDecomp_eq_sink raw algo stored declared out hraw writes hp
+
+example : Sink.run 5 [[1, 2], [3], [4, 5]] = .ok [1, 2, 3, 4, 5] := rfl
+example : Sink.run 5 [[1, 2], [3, 4, 5, 6], [7]] = .error 1 := rfl
+example : Sink.states 5 [[1, 2], [3, 4, 5, 6], [7]] = [2] := by decide +kernel
 
 end Bita.Props.C15
